@@ -148,7 +148,9 @@ namespace options
             raise<parsing_error>("a toggle cannot be given a value: ", name());
         }
 
-        if (arg.has_prefix())
+        // "--no-<name>" reverses this toggle; a toggle that is itself called "no-..." is not reversed
+        // by its own name
+        if (arg.has_prefix() && arg.name_without_prefix() == name())
         {
             if (!reversable_)
             {
